@@ -37,7 +37,7 @@ CONSTANTS
   ParSlot,    \* parent name -> slot of that parent block
   MaxIdx      \* largest slice index that carries state
 
-DATA == 33                      \* shreds needed to restore a slice
+DATA == 32                      \* shreds needed to restore a slice
 TOTAL == 64                     \* shreds per slice
 Shreds == 0..(TOTAL - 1)
 SliceIdx == 0..MaxIdx
